@@ -19,6 +19,8 @@ pub enum Op {
     Fns(Vec<String>),
     Sym(String, Value),
     Syms(Vec<(String, Value)>),
+    /// `with_symbols` of a table filled with `Symbols::append` from an iterator in the given (arbitrary) order
+    SymsAppend(Vec<(String, Value)>),
 }
 
 pub const KEYWORDS: [&str; 38] = [
@@ -34,7 +36,7 @@ fn enc_op(o: &Op) -> String {
         Op::Fn(n) => format!("(fn {})", hex(n)),
         Op::Fns(ns) => format!("(fns{})", ns.iter().map(|n| format!(" {}", hex(n))).collect::<String>()),
         Op::Sym(k, v) => format!("(sym {} {})", hex(k), enc_value(v)),
-        Op::Syms(kvs) => {
+        Op::Syms(kvs) | Op::SymsAppend(kvs) => {
             // a Symbols table is a BTreeMap: effective entries, in key order
             let m: BTreeMap<&String, &Value> = kvs.iter().map(|(k, v)| (k, v)).collect();
             format!("(syms{})", m.iter().map(|(k, v)| format!(" ({} {})", hex(k), enc_value(v))).collect::<String>())
@@ -78,6 +80,11 @@ pub fn impl_builder(ops: &[Op], probe_fns: &[String], probe_syms: &[String]) -> 
                 Op::Fns(ns) => b.with_functions(ns.iter().map(|n| Box::new(hfn(n, &shared)) as Box<dyn UserFunction + Send + Sync>).collect::<Vec<_>>()),
                 Op::Sym(k, v) => Ok(b.with_symbol(k, v.clone())),
                 Op::Syms(kvs) => b.with_symbols(Symbols::from(kvs.clone())),
+                Op::SymsAppend(kvs) => {
+                    let mut t = Symbols::default();
+                    t.append(kvs.clone());
+                    b.with_symbols(t)
+                }
             };
             match r {
                 Ok(nb) => {
@@ -217,6 +224,32 @@ pub fn run(rep: &mut Report, driver: &str, workers: usize, thorough: bool, seed:
         let n = 4 + rng.below(3);
         seqs.push((0..n).map(|_| atoms[rng.below(atoms.len())].clone()).collect());
     }
+    // long histories: whatever indexes, sorts or pages the accepted names must stay exact at every size
+    let big = 40usize;
+    let rn = |i: usize| format!("rule {}", i);
+    let fnn = |i: usize| format!("fn_{}", i);
+    for k in [0usize, 15, 30, 31, 32, 33, 39] {
+        let mut h: Vec<Op> = (0..big).map(|i| Op::Rule(rn(i))).collect();
+        h.push(Op::Rule(rn(k)));
+        seqs.push(h);
+        seqs.push(vec![Op::Rules((0..big).map(rn).collect()), Op::Rule(rn(k))]);
+        seqs.push(vec![Op::Rules((0..big).map(rn).chain([rn(k)]).collect())]);
+        let mut h: Vec<Op> = (0..big).map(|i| Op::Fn(fnn((i * 7) % big))).collect();
+        h.push(Op::Fn(fnn(k)));
+        seqs.push(h);
+        seqs.push(vec![Op::Fns((0..big).map(|i| fnn((i * 7) % big)).collect()), Op::Fn(fnn(k))]);
+    }
+    {
+        // symbols registered in descending, ascending and scattered order, one by one and through `append`
+        let order: Vec<usize> = (0..big).map(|i| (i * 17 + 5) % big).collect();
+        let name = |i: usize| format!("s{:02}", i);
+        seqs.push(order.iter().map(|i| Op::Sym(name(*i), Value::Int(*i as i128))).collect());
+        seqs.push(vec![Op::SymsAppend(order.iter().map(|i| (name(*i), Value::Int(*i as i128))).collect())]);
+        seqs.push(vec![Op::SymsAppend((0..big).rev().map(|i| (name(i), Value::Int(i as i128))).collect())]);
+        seqs.push(vec![Op::SymsAppend(vec![("zeta".into(), Value::Int(1)), ("mid".into(), Value::Int(2)), ("alpha".into(), Value::Int(3))])]);
+        seqs.push(vec![Op::Sym("m".into(), Value::Int(0)), Op::SymsAppend(vec![("zeta".into(), Value::Int(1)), ("mid".into(), Value::Int(2)), ("alpha".into(), Value::Int(3)), ("m".into(), Value::Int(9))])]);
+        seqs.push(vec![Op::Syms(order.iter().map(|i| (name(*i), Value::Int(*i as i128))).collect()), Op::SymsAppend(vec![(name(3), Value::Int(-3)), ("zz".into(), Value::Int(7)), (name(1), Value::Int(-1))])]);
+    }
     let n_hist = seqs.len();
     // candidate function names: one `with_function` each, after an accepted `f`
     let cands = candidate_names();
@@ -229,7 +262,27 @@ pub fn run(rep: &mut Report, driver: &str, workers: usize, thorough: bool, seed:
 
     let mut reqs = vec![];
     let mut probes = vec![];
+    let mut sym_probes = vec![];
     for ops in &seqs {
+        let mut ps = probe_syms.clone();
+        for o in ops {
+            match o {
+                Op::Sym(k, _) => {
+                    if !ps.contains(k) {
+                        ps.push(k.clone())
+                    }
+                }
+                Op::Syms(kvs) | Op::SymsAppend(kvs) => {
+                    for (k, _) in kvs {
+                        if !ps.contains(k) {
+                            ps.push(k.clone())
+                        }
+                    }
+                }
+                _ => {}
+            }
+        }
+        sym_probes.push(ps);
         let mut names: Vec<String> = vec![];
         for o in ops {
             match o {
@@ -250,14 +303,14 @@ pub fn run(rep: &mut Report, driver: &str, workers: usize, thorough: bool, seed:
     let replies = par_batch(driver, workers, &reqs);
     let mut sr = StreamReport::new(
         "builder-histories",
-        "every sequence of <= 3 (thorough 4) builder calls over 17 atoms (with_rule x3 names, with_rules batches incl. an inner duplicate, with_function x4 names incl. a reserved word and a leading underscore, with_functions batches incl. an inner duplicate, with_symbol / with_symbols incl. re-registration) exhaustively, random longer ones; then every candidate function name (all 38 reserved words and their near-misses, identifiers, leading digit, `_` + every ASCII punctuation/space, embedded space/dash, empty, non-ASCII XID_Start / XID_Continue-only / neither) through with_function and with_functions. Observed: Ok/Err and the name in the error of every call; the built ruleset evaluated with probe rules (accepted rules in order via Outcome.rule.name(), each function invocable under its own name, each symbol's value)",
+        "every sequence of <= 3 (thorough 4) builder calls over 17 atoms (with_rule x3 names, with_rules batches incl. an inner duplicate, with_function x4 names incl. a reserved word and a leading underscore, with_functions batches incl. an inner duplicate, with_symbol / with_symbols incl. re-registration) exhaustively, random longer ones; long histories (40 rules / functions one by one and in batches followed by a duplicate of the 1st, 16th, 31st–34th and 40th name; 40 symbols in scattered / descending order one by one, through `Symbols::from` and through `Symbols::append`); then every candidate function name (all 38 reserved words and their near-misses, identifiers, leading digit, `_` + every ASCII punctuation/space, embedded space/dash, empty, non-ASCII XID_Start / XID_Continue-only / neither) through with_function and with_functions. Observed: Ok/Err and the name in the error of every call; the built ruleset evaluated with probe rules (accepted rules in order via Outcome.rule.name(), each function invocable under its own name, each symbol's value)",
         false,
     );
     for (i, ops) in seqs.iter().enumerate() {
         let canon = &reqs[i];
         sr.count(canon, !ops.is_empty());
         sr.hist("part", if i < n_hist { "history" } else { "candidate-name" });
-        let imp = impl_builder(ops, &probes[i], &probe_syms);
+        let imp = impl_builder(ops, &probes[i], &sym_probes[i]);
         let model_full = &replies[i];
         let mut push = |pred: &str, sig: String, imp_s: &str| {
             rep.add_finding(Finding { kind: "impl-violates-property".into(), stream: "builder-histories".into(), case: canon.clone(), human: format!("{:?}", ops).chars().take(200).collect(), impl_out: imp_s.into(), model_out: model_full.clone(), predicate: pred.into(), signature: sig })
